@@ -1,7 +1,7 @@
 """C17 - untrusted bytes and valid calls never cause out-of-bounds access / misaligned access.
 Rules: R-ALIGN (every pointer cast, every configuration), R-BOUNDS (constant-extent arrays under
 constant-bounded loops), R-FOOT/R-LEN (marshal footprints and length guards), R-ASM (thorough)."""
-from .. import layout, ranges
+from .. import layout, ranges, marshal
 from ..facts import walk, loc_str, strip, strip_tmpl
 
 EXPL = ('Decides the structural mechanisms behind memory safety of the parsing and arithmetic code, in every analysis '
@@ -262,5 +262,9 @@ def run(ctx):
             note = 'untyped parameters of %s are assumed suitably aligned: its only callers are assembly' % a
             if note not in ctx.assumptions:
                 ctx.assumptions.append(note)
+        nf = marshal.rule_foot_and_pair(ctx, cfg, prog)
+        ctx.floor('R-FOOT footprint cases[%s]' % cfg, nf, 30)
+        nl = marshal.rule_len(ctx, cfg, prog)
+        ctx.floor('R-LEN functions[%s]' % cfg, nl, 4)
         nb = rule_bounds(ctx, cfg, prog)
         ctx.floor('R-BOUNDS subscripts[%s]' % cfg, nb, 150)
